@@ -64,6 +64,10 @@ class ScopeGen(object):
             self.vis[0][name] = body
             if r.random() < 0.3:
                 self.features.add('global-def')
+                if r.random() < 0.4:
+                    # the prefix reaches its \def only through \expandafter and a name built by \csname
+                    self.features.add('global-def-through-expandafter')
+                    return '\\global\\expandafter\\def\\csname %s\\endcsname{%s}' % (name, body)
                 return '\\global\\def\\%s{%s}' % (name, body)
             self.features.add('gdef')
             return '\\gdef\\%s{%s}' % (name, body)
